@@ -127,11 +127,14 @@ def chunk_encode(rng, body, hostile):
                 line = b"%x" % (n + 1)
             else:
                 line = size + b";a=\0"
+            if k in (0, 1, 5, 10) and rng.randrange(2):
+                # a malformed size together with a (legal) extension: the two are handled by different branches of a parser
+                line = line + (ext or rng.choice([b";a=b", b" ;x", b";"]))
         out.append(line + term + body[pos:pos + n] + dterm)
         pos += n
     last = rng.choice([b"0", b"0", b"0", b"00", b"0;x=y", b"0 ;z"])
     if hostile and rng.randrange(15) == 0:
-        last = rng.choice([b"0 ", b"0\n", b"-0", b"0x0", b"", b"0;a\nb", b"+0"])
+        last = rng.choice([b"0 ", b"0\n", b"-0", b"0x0", b"", b"0;a\nb", b"+0", b" 0;x", b"\t0 ;x=y", b"+0;a", b"0x0;a=b"])
     out.append(last + b"\r\n")
     k = rng.randrange(6)
     if k == 0:
@@ -281,3 +284,78 @@ def shrink_stream(msgs):
         body = m[he + 4:]
         if len(body) > 8:
             yield msgs[:i] + [m[:he + 4] + body[:len(body) // 2]] + msgs[i + 1:]
+
+
+GRID = None
+
+
+def grid_streams():
+    """A fixed, enumerated set of streams in which two independently handled features of one grammar rule meet (a prefix and an
+    extension on a chunk-size line; the order, repetition and spelling of the framing fields; an odd byte on either side of a field
+    name or value).  Random generation reaches such pairs rarely; the grid runs them all in every batch (index < len(grid))."""
+    global GRID
+    if GRID is not None:
+        return GRID
+    out = []
+    nxt = b"GET /next HTTP/1.1\r\nHost: a\r\n\r\n"
+    head = b"POST /c HTTP/1.1\r\nHost: a\r\nTransfer-Encoding: chunked\r\n\r\n"
+    # 1. chunk-size line: prefix x digits x BWS x extension x suffix   (first chunk and last chunk)
+    for pre in (b"", b" ", b"\t", b"0x", b"-", b"+", b"\x0b"):
+        for bws in (b"", b" ", b"\t"):
+            for ext in (b"", b";", b";a=b", b";a=\"b c\"", b"; a=b"):
+                for suf in (b"", b" ", b"\t"):
+                    if not ext and bws and suf:
+                        continue
+                    line = pre + b"5" + bws + ext + suf
+                    out.append([head + line + b"\r\nhello\r\n0\r\n\r\n", nxt])
+                    last = pre + b"0" + bws + ext + suf
+                    out.append([head + b"5\r\nhello\r\n" + last + b"\r\n\r\n", nxt])
+    # 2. framing fields: order, repetition, spelling
+    cls = [b"Content-Length: 5", b"Content-Length: 5 ", b"Content-Length:5", b"content-length: 5", b"Content-Length: 05",
+           b"Content-Length: +5", b"Content-Length: 5, 5", b"Content-Length: 0x5", b"Content_Length: 5", b"Content-Length : 5"]
+    tes = [b"Transfer-Encoding: chunked", b"transfer-encoding: Chunked", b"Transfer-Encoding: gzip, chunked", b"Transfer-Encoding: chunked, gzip",
+           b"Transfer-Encoding: identity", b"Transfer_Encoding: chunked", b"Transfer-Encoding : chunked", b"Transfer-Encoding:\tchunked\t"]
+    cbody = b"5\r\nhello\r\n0\r\n\r\n"
+    for ver in (b"HTTP/1.1", b"HTTP/1.0"):
+        start = b"POST /f " + ver + b"\r\nHost: a\r\n"
+        for c in cls:
+            out.append([start + c + b"\r\n\r\nhello", nxt])
+            for t in tes:
+                out.append([start + c + b"\r\n" + t + b"\r\n\r\n" + cbody, nxt])
+                out.append([start + t + b"\r\n" + c + b"\r\n\r\n" + cbody, nxt])
+        for t in tes:
+            out.append([start + t + b"\r\n\r\n" + cbody, nxt])
+            out.append([start + t + b"\r\n" + tes[0] + b"\r\n\r\n" + cbody, nxt])
+            out.append([start + tes[0] + b"\r\n" + t + b"\r\n\r\n" + cbody, nxt])
+        out.append([start + cls[0] + b"\r\n" + cls[0] + b"\r\n\r\nhello", nxt])
+        out.append([start + cls[0] + b"\r\nContent-Length: 6\r\n\r\nhello!", nxt])
+    # 3. an odd byte class before / after a field name and a field value
+    for o in (b" ", b"\t", b"\x0b", b"\x0c", b"\0", b"\r", b"\n", b"\x7f", b"\x80", b"\xa0", b":", b"\""):
+        for name, val in ((b"Host", b"a"), (b"Content-Length", b"0"), (b"X-A", b"v")):
+            for k in range(6):
+                n, v = name, val
+                sep = b": "
+                if k == 0:
+                    n = o + name
+                elif k == 1:
+                    n = name + o
+                elif k == 2:
+                    v = o + val
+                elif k == 3:
+                    v = val + o
+                elif k == 4:
+                    sep = b":" + o
+                else:
+                    v = val[:1] + o + val[1:] + b"x"
+                hs = [(b"Host", b"a")] if name != b"Host" else []
+                m = b"POST /o HTTP/1.1\r\n" + b"".join(a + b": " + b + b"\r\n" for a, b in hs) + n + sep + v + b"\r\n\r\n"
+                out.append([m, nxt])
+    # 4. request line: separators and versions
+    for sep1 in (b" ", b"  ", b"\t", b""):
+        for sep2 in (b" ", b"  ", b"\t"):
+            for ver in (b"HTTP/1.1", b"HTTP/1.0", b"HTTP/1.1 ", b"HTTP/2.0", b"http/1.1", b"HTTP/1.01"):
+                if sep1 == b" " and sep2 == b" " and ver in (b"HTTP/1.1", b"HTTP/1.0"):
+                    continue
+                out.append([b"GET" + sep1 + b"/r" + sep2 + ver + b"\r\nHost: a\r\n\r\n", nxt])
+    GRID = out
+    return out
